@@ -13,13 +13,13 @@ from icalendar.prop import vDDDTypes
 from vcheck.hcommon import SYMBOLIC, pin, pinned
 
 # tz choices for a property: 0 none (floating), 1..: an id
-TZIDS = [None, "Europe/Vienna", "America/New_York", "Unknown/Zone", "/Europe/Berlin"]
+TZIDS = [None, "Europe/Vienna", "America/New_York", "AAA/Unknown_Zone", "/Europe/Berlin", "Unknown/Zone"]
 KNOWN = {"Europe/Vienna", "America/New_York", "/Europe/Berlin", "Asia/Tokyo"}
 # Pre-load the zones outside the traced call: under CrossHair zoneinfo is the pure-Python
 # implementation and parsing a TZif file under the tracer costs seconds per path; ZoneInfo() is
 # cached by key, so later constructions inside the harness are cache hits.
 _ZONES = {z: ZoneInfo(z) for z in ("Europe/Vienna", "America/New_York", "Europe/Berlin", "Asia/Tokyo", "UTC")}
-VT_IDS = ["Europe/Vienna", "America/New_York", "Asia/Tokyo", "Unknown/Zone"]
+VT_IDS = ["Europe/Vienna", "America/New_York", "Asia/Tokyo", "AAA/Unknown_Zone"]
 
 
 def _stub_from_tzinfo():
@@ -44,7 +44,7 @@ def _zoned(i, hour):
     dt = datetime(2020, 6, 1, hour, 0, 0)
     if tzid is None:
         return vDDDTypes(dt)
-    if tzid in ("Unknown/Zone", "/Europe/Berlin"):
+    if tzid in ("Unknown/Zone", "AAA/Unknown_Zone", "/Europe/Berlin"):
         v = vDDDTypes(dt)
         v.params["TZID"] = tzid
         return v
@@ -65,7 +65,7 @@ def _vtimezone(tzid):
 def h_closure(t1: int, t2: int, t3: int, t4: int, n0: int, n1: int, n2: int, n3: int,
               vt_first: bool) -> bool:
     """
-    pre: 0 <= t1 < 5 and 0 <= t2 < 3 and 0 <= t3 < 3 and 2 <= t4 < 5 and pinned("t1", t1)
+    pre: 0 <= t1 < 5 and 0 <= t2 < 3 and 0 <= t3 < 3 and 3 <= t4 < 6 and pinned("t1", t1)
     pre: 0 <= n0 <= 2 and 0 <= n1 <= 2 and 0 <= n2 <= 2 and 0 <= n3 <= 1
     pre: pinned("n0", n0) and pinned("n1", n1) and pinned("n2", n2) and pinned("n3", n3)
     pre: pinned("vt_first", vt_first)
